@@ -48,12 +48,20 @@ type pool struct {
 	ws       []*worker
 	restarts int
 	mu       sync.Mutex
+	shm      string
 }
 
 func newPool(e *hx.Env, n int) *pool {
 	p := &pool{e: e}
+	// the workers rewrite and reopen small files thousands of times, and the journal open path
+	// fsyncs: a memory-backed directory (when there is one) makes that ~10x faster; fall back to
+	// the scratch directory otherwise.  Removed in close().
+	root := e.Scratch
+	if d, err := os.MkdirTemp("/dev/shm", "verif-corrupt-"); err == nil {
+		root, p.shm = d, d
+	}
 	for i := 0; i < n; i++ {
-		p.ws = append(p.ws, &worker{dir: fmt.Sprintf("%s/w%d", e.Scratch, i)})
+		p.ws = append(p.ws, &worker{dir: fmt.Sprintf("%s/w%d", root, i)})
 	}
 	return p
 }
@@ -125,7 +133,8 @@ func classifyDeath(stderr string, timedOut bool) (died, op string) {
 }
 
 // run executes one job on this worker (restarting it when needed).
-func (w *worker) run(p *pool, j *job) {
+func (w *worker) run(p *pool, j *job, limit time.Duration) {
+	j.died, j.diedOp, j.res = "", "", Result{}
 	if w.cmd == nil {
 		if err := w.start(); err != nil {
 			j.died = "crash:cannot-start-worker " + err.Error()
@@ -158,7 +167,7 @@ func (w *worker) run(p *pool, j *job) {
 	var got rd
 	select {
 	case got = <-ch:
-	case <-time.After(10 * time.Second):
+	case <-time.After(limit):
 		timedOut = true
 		w.cmd.Process.Kill()
 		got = <-ch
@@ -194,7 +203,7 @@ func (p *pool) runAll(jobs []*job) {
 		go func(w *worker) {
 			defer wg.Done()
 			for j := range ch {
-				w.run(p, j)
+				w.run(p, j, caseTimeout)
 			}
 		}(w)
 	}
@@ -203,10 +212,24 @@ func (p *pool) runAll(jobs []*job) {
 	}
 	close(ch)
 	wg.Wait()
+	// a timeout under a loaded machine is not a hang: re-run those cases alone with a long limit
+	for _, j := range jobs {
+		if j.died == "timeout" || j.died == "crash:unknown" {
+			// (a worker that vanished without a panic / fatal trace -- e.g. killed from outside -- is
+			// re-run as well: only a reproducible death is an outcome)
+			p.ws[0].run(p, j, hangRecheck)
+		}
+	}
 }
+
+const caseTimeout = 10 * time.Second
+const hangRecheck = 40 * time.Second
 
 func (p *pool) close() {
 	for _, w := range p.ws {
 		w.stop()
+	}
+	if p.shm != "" {
+		os.RemoveAll(p.shm)
 	}
 }
